@@ -1479,6 +1479,7 @@ func withTracing(on bool, f func()) {
 
 func main() {
 	raceChild := flag.Bool("race-child", false, "run only the free-running fragment (used under go build -race)")
+	reduced := flag.Bool("reduced", false, "race child in the quick tier: a small fragment")
 	flag.BoolVar(&skipLiveAttrs, "skip-live-attrs", false, "race child: leave Attributes() on the live span out of the accessor calls (F-C10-2)")
 	o := vgen.ParseFlags()
 	r := vgen.NewRand(o.Seed)
@@ -1520,6 +1521,9 @@ func main() {
 	nSeq := o.Count(160, 3000)
 	nRace := o.Count(150, 3000)
 	nStorm := o.Count(90000, 900000)
+	if *reduced { // racing programs (child Start, accessors, End) and End storms, small
+		nStormCorpus, nRace, nStorm = 4000, 80, 16000
+	}
 	anomalies := 0
 	for _, tracing := range []bool{true, false} {
 		withTracing(tracing, func() {
@@ -1567,8 +1571,8 @@ func main() {
 	w.Extra["anomalous_trials"] = anomalies
 	w.Extra["inconclusive"] = inconclusiveRuns.Load()
 
-	if o.Tier == "thorough" && !*raceChild {
-		raceTier(w, o)
+	if !*raceChild {
+		raceTier(w, o, o.Tier != "thorough")
 	}
 	if err := w.Flush(); err != nil {
 		fmt.Fprintln(os.Stderr, err)
@@ -1578,7 +1582,7 @@ func main() {
 
 // raceTier rebuilds this harness with the race detector and runs the free-running
 // fragment under it; a reported data race is a direct violation.
-func raceTier(w *vgen.Writer, o vgen.Opts) {
+func raceTier(w *vgen.Writer, o vgen.Opts, reduced bool) {
 	root := os.Getenv("VERIF_ROOT")
 	if root == "" {
 		w.Extra["race_detector"] = "skipped: VERIF_ROOT not set"
@@ -1590,8 +1594,18 @@ func raceTier(w *vgen.Writer, o vgen.Opts) {
 		args = append(args, "-modfile="+filepath.Join(o.Out, "alt.mod"))
 	}
 	args = append(args, "./cmd/C10")
-	ctx, cancel := context.WithTimeout(context.Background(), 20*time.Minute)
+	budget := 20 * time.Minute
+	if reduced {
+		budget = 100 * time.Second // quick tier: build (warm cache) + two small passes; running out of time is inconclusive
+	}
+	ctx, cancel := context.WithTimeout(context.Background(), budget)
 	defer cancel()
+	t0 := time.Now()
+	defer func() {
+		if s, ok := w.Extra["race_detector"].(string); ok {
+			w.Extra["race_detector"] = s + fmt.Sprintf(" [%s fragment, %s incl. build]", map[bool]string{true: "reduced (quick tier: 80 racing programs and 16 000+4 000 storm spans per runtime/trace setting, two passes)", false: "full"}[reduced], time.Since(t0).Round(time.Second))
+		}
+	}()
 	cmd := exec.CommandContext(ctx, "go", args...)
 	cmd.Dir = filepath.Join(root, "harness")
 	if out, err := cmd.CombinedOutput(); err != nil {
@@ -1610,12 +1624,19 @@ func raceTier(w *vgen.Writer, o vgen.Opts) {
 	var knownDesc map[string]any
 	for pass, extra := range [][]string{{"-skip-live-attrs"}, {}} {
 		args := append([]string{"-race-child", "-seed", strconv.FormatUint(o.Seed, 10), "-tier", "quick", "-out", sub}, extra...)
+		if reduced {
+			args = append(args, "-reduced")
+		}
 		run := exec.CommandContext(ctx, bin, args...)
 		run.Env = append(os.Environ(), "GORACE=halt_on_error="+strconv.Itoa(1-pass)+" exitcode=66")
 		var buf bytes.Buffer
 		run.Stdout, run.Stderr = &buf, &buf
 		err := run.Run()
 		out := buf.String()
+		if ctx.Err() != nil && !strings.Contains(out, "WARNING: DATA RACE") {
+			w.Extra["race_detector"] = fmt.Sprintf("inconclusive: pass %d did not finish within the time budget", pass+1)
+			return
+		}
 		reports := strings.Split(out, "WARNING: DATA RACE\n")[1:]
 		for _, rep := range reports {
 			// the two conflicting accesses are the first two blocks of a report
